@@ -191,9 +191,6 @@ class SinglePhaseReservoir(IdealReservoir):
                     f" {len(pressure_fracface)} versus {len(time)}"
                 )
                 raise ValueError(msg)
-        self.time = time
-        if hasattr(self, "recovery"):
-            del self.recovery  # cached recovery belongs to the previous run
         dx_squared = (1 / self.nx) ** 2
         pseudopressure = np.empty((len(time), self.nx))
         m_i = self.fluid.m_i
@@ -216,6 +213,9 @@ class SinglePhaseReservoir(IdealReservoir):
             b[0] = m_f[i] + kt_h2[0] * m_f[i]
             a_matrix = _build_matrix(kt_h2)
             pseudopressure[i + 1] = _solve(a_matrix, b)
+        self.time = time
+        if hasattr(self, "recovery"):
+            del self.recovery  # cached recovery belongs to the previous run
         self.pseudopressure = pseudopressure
 
 
